@@ -190,8 +190,11 @@ def targets(ctx):
 
     from . import _seq
 
+    from . import _wkt
+
     return [
         Target("corpus_values", ev, strategy=strat(), quick=700, thorough=8000, time_quick=70),
         Target("length_prefix_boundaries", ev, strategy=big(), quick=150, thorough=400),
         _seq.target("C09"),
+        _wkt.target("C09"),
     ]
